@@ -102,6 +102,42 @@ def campaign(c):
                 if val_bytes(r) != want:
                     c.violation('bind:tail-handover:' + f['path'], '%s(%s) = %s: the collected arguments are not all handed over in order' % (f['path'], [x.decode() for x in t], r[:80]), dict(func=f['path'], req=req, want=want.hex()))
             c.case(('tail', f['path'], tuple(t)), None)
+    # designation end to end: every parameter of every function gets its own recognisable value (by name in declared order, by
+    # name in reverse order, and positionally where possible) and the function is CALLED; the model and the real code must produce
+    # the same result, and for the fixed-layout header helpers the value must sit in the field the documentation gives that name
+    DV = {'U8': lambda k: 'u8:%d' % (0x11 * (k + 1) % 256), 'U16': lambda k: 'u16:%d' % (0x0101 * (k + 1) + 0x1000), 'U32': lambda k: 'u32:%d' % (0x01010101 * (k + 1)),
+          'U64': lambda k: 'u64:%d' % (0x0101010101 * (k + 1)), 'Bool': lambda k: 'bool:%s' % ('true' if k % 2 else 'false'), 'Ip4': lambda k: 'ip4:%d' % (0x0a000000 + k + 1),
+          'Sock4': lambda k: 'sock4:%d:%d' % (0x0a000000 + k + 1, 1000 + k), 'Str': lambda k: 'str:' + ('%02x' % (0x61 + k)) * (k + 2)}
+    LAYOUT = {'dns::hdr': [('id', 0, 2), ('flags', 2, 2), ('qdcount', 4, 2), ('ancount', 6, 2), ('nscount', 8, 2), ('arcount', 10, 2)],
+              'ipv4::udp::hdr': [('src', 0, 2), ('dst', 2, 2), ('csum', 6, 2)]}     # `len` is the payload length: the field holds len + 8
+    for f in lib.funcs:
+        vals = []
+        for k, a in enumerate(f['args']):
+            t = decl_type(a)[0]
+            vals.append((a['name'], DV[t](k) if t in DV and not (f['path'] == 'eth::frame' and a['name'] in ('src', 'dst')) else base_arg(f, a)))
+        forms = [['%s=%s' % nv for nv in vals], ['%s=%s' % nv for nv in reversed(vals)]]
+        npos = len([a for a in f['args'] if a['kind'] == 'pos'])
+        forms.append(['-=%s' % v for _, v in vals[:npos]] + ['%s=%s' % nv for nv in vals[npos:]])
+        results = []
+        for args in forms:
+            steps, idx = steps_for(f, args)
+            res, req = call_both(c, steps, 'designation')
+            results.append(res[idx] if idx < len(res) else 'missing')
+        if len(set(results)) != 1:
+            c.violation('bind:designation:' + f['path'], 'the same designation spelled by name, in reverse order and by position gives different results: %s' % [r[:60] for r in results], dict(func=f['path'], req=req))
+        b = val_bytes(results[0])
+        want = dict(vals)
+        def num(v): return int(v.split(':')[1])
+        if b is not None and f['path'] in LAYOUT:
+            for name, off, w in LAYOUT[f['path']]:
+                if int.from_bytes(b[off:off + w], 'big') != num(want[name]):
+                    c.violation('bind:designation:' + f['path'], 'the value designated for `%s` (%s) is not in that field of the result %s' % (name, want[name], b.hex()), dict(func=f['path'], req=req))
+        if b is not None and f['path'] in ('dns::question', 'dns::answer'):
+            n = len(core.unhex(want['qname' if 'question' in f['path'] else 'aname'].split(':')[1]))    # the name argument is already in wire form (dns::name)
+            tn, cn = ('qtype', 'qclass') if 'question' in f['path'] else ('atype', 'aclass')
+            if int.from_bytes(b[n:n + 2], 'big') != num(want[tn]) or int.from_bytes(b[n + 2:n + 4], 'big') != num(want[cn]):
+                c.violation('bind:designation:' + f['path'], '%s: TYPE/CLASS on the wire are %d/%d, designated %s/%s' % (f['path'], int.from_bytes(b[n:n + 2], 'big'), int.from_bytes(b[n + 2:n + 4], 'big'), want[tn], want[cn]), dict(func=f['path'], req=req))
+        c.case(('designation', f['path']), None)
     c.extra['exhaustive_space'] = 'all %d signatures x call shapes of length <= %d over (5 name choices x 3 values)' % (len(lib.funcs), L)
     m = 3000 if c.quick else 100000
     for i in range(m):
